@@ -38,11 +38,13 @@
                        refused DATA the next message on the connection waits for replies that never come
      KF_RcptBeforeMail _check_replies looks at the RCPT replies before the MAIL reply (seeded change C06c-m2): with
                        PIPELINING a refused sender is reported with the class of the 503 given to the RCPTs
+     KF_HeloReportsEhlo a HELO refused after the fallback from "500" to EHLO is reported as that 500 (seeded change C11g-m2): a
+                       HELO deferred with 4xx makes the message bounce
      KF_FirstRcptClass when every recipient is refused the whole message fails with the class of the FIRST refusal,
                        also for recipients refused with the other class                        (D28) *)
 EXTENDS Integers, Sequences, FiniteSets, TLC
 
-CONSTANTS NRcpt, Lmtp, Pipelining, NMsg, KF_FlushOutside, KF_FirstRcptClass, KF_RsetBypass, KF_RcptBeforeMail,
+CONSTANTS NRcpt, Lmtp, Pipelining, NMsg, KF_FlushOutside, KF_FirstRcptClass, KF_RsetBypass, KF_RcptBeforeMail, KF_HeloReportsEhlo,
           Tls, PeerTls, Creds, PeerAuth
 
 Rcpts == 1..NRcpt
@@ -183,7 +185,7 @@ EhloChk == /\ pc = "ehlo_chk" /\ UNCHANGED <<enc, round>>
 \* HELO accepted: the extension table is left as it was - empty after the first EHLO was refused, but what the clear-text
 \* EHLO listed when it is the EHLO after STARTTLS that was answered 500
 HeloChk == /\ pc = "helo_chk" /\ UNCHANGED hvars
-           /\ IF IsErr(rep[<<"helo", round>>]) THEN HandshakeFail(rep[<<"helo", round>>])
+           /\ IF IsErr(rep[<<"helo", round>>]) THEN HandshakeFail(IF KF_HeloReportsEhlo THEN rep[<<"ehlo", round>>] ELSE rep[<<"helo", round>>])
               ELSE /\ pc' = AfterHello(ext) /\ UNCHANGED <<wait, after, queued, scope, rep, pipe, alive, mute, pdata, left, result, inexc, hist, viol>>
 \* _starttls: the command, its reply and - after a 220 - the TLS handshake, all inside one command Timeout
 StartTls == /\ pc = "starttls" /\ Await(<< <<"starttls", 0>> >>, "cmd", "starttls_chk") /\ U0 /\ UNCHANGED hvars
@@ -317,8 +319,11 @@ Spec == Init /\ [][Next]_vars
 (* ------------------------------------------------------------------ properties *)
 Got(s, i) == rep[<<s, i>>]
 \* (a refused STARTTLS is no failure when TLS is not required: the delivery goes on in clear text)
+\* ("500" to EHLO makes an SMTP client say HELO: the answer to HELO is the one that counts)
 Failures == {n \in 1..Len(hist) : /\ hist[n].m = msg /\ hist[n].a \notin {"ok", "ok2"} /\ hist[n].s \notin {"quit", "rset"}
-                                   /\ ~(hist[n].s = "starttls" /\ hist[n].a \in {"t4", "p5"} /\ Tls # "req")}
+                                   /\ ~(hist[n].s = "starttls" /\ hist[n].a \in {"t4", "p5"} /\ Tls # "req")
+                                   /\ ~(hist[n].s = "ehlo" /\ hist[n].a = "e500" /\ ~Lmtp
+                                        /\ \E k \in (n + 1)..Len(hist) : hist[k].s = "helo" /\ hist[k].i = hist[n].i)}
 \* the relay is told to authenticate and the downstream does not offer AUTH: a permanent failure of the relay's own making
 NoAuthOffered == Creds /\ pc \in {"next", "done"} /\ rep[<<"auth", 0>>] = None /\ hist # <<>> /\ result = Raise("P")
                  /\ \A n \in 1..Len(hist) : hist[n].s \notin {"mail", "auth"}
